@@ -406,7 +406,10 @@ fn busy_bound(scn: &E1Scn) -> u64 {
     let ops = all_ops(scn);
     let run_async: u64 = ops.iter().map(|o| if let Op::RunAsync { ms } | Op::RunStall { ms } = o.3.op { ms } else { 0 }).sum();
     let capable = ops.iter().filter(|o| o.3.op.spawn_capable()).count() as u64;
-    run_async + hook_slack(scn) * (2 * capable + 2)
+    // (a process that is slow to die keeps the job task inside the control that killed it: slow-death fault)
+    let kills: u64 = ops.iter().filter(|o| o.3.op.spawn_capable() || matches!(o.3.op, Op::Stop | Op::StopSig { .. } | Op::Delete | Op::DeleteNow)).count() as u64;
+    let lag: u64 = scn.children.iter().map(|c| c.kill_lag).max().unwrap_or(0);
+    run_async + hook_slack(scn) * (2 * capable + 2) + lag * kills
 }
 
 /// where the signal of graceful op `id` landed: (t, seq, child, delivered)
@@ -519,7 +522,7 @@ pub fn gen_settled(rng: &mut Rng, graceful_heavy: bool) -> E1Scn {
 }
 
 /// graceful op immediately followed (same instant or a few ms later) by controls of every priority
-pub fn gen_graceful_burst(rng: &mut Rng, faults: bool) -> E1Scn {
+pub fn gen_graceful_burst(rng: &mut Rng, faults: bool, slow_death: bool) -> E1Scn {
     let mut sigs = e1::SigAlloc::new();
     let mut steps = vec![Step { gap: 0, op: Op::Start, waiters: 1, inline: rng.chance(1, 2), cancel_after: None, late_clone: None }];
     let grace = *rng.pick(&e1::DURS[..7]);
@@ -574,6 +577,10 @@ pub fn gen_graceful_burst(rng: &mut Rng, faults: bool) -> E1Scn {
         if rng.chance(1, 8) {
             children[0].fail_kill = true;
         }
+    }
+    // slow death: the kill at the end of the grace period takes a while to take effect
+    if slow_death && rng.chance(1, 6) {
+        children[0].kill_lag = *rng.pick(&[1u64, 3, 50, 1000, 6000]);
     }
     let mut senders = vec![steps];
     if !second.is_empty() {
@@ -639,11 +646,29 @@ pub fn oracle_c06(scn: &E1Scn, d: &Digest, stats: &mut Stats) -> Vec<Violation> 
             Some((e, _)) if e == deadline => stats.hit("probe:exit-at-expiry-tie"),
             _ => {}
         }
+        // (a process that is slow to die - the slow-death fault - ends up to `lag` after the kill at expiry)
+        let lag = scn.children.get(ci.min(scn.children.len().saturating_sub(1))).map(|c| c.kill_lag).unwrap_or(0);
         if !faulty && !ended_by_then && !dropped_early && !delete_now_before(scn, d, u32::MAX) {
             let late = match c.exit {
                 None => true,
-                Some((e, _)) => e > deadline,
+                Some((e, _)) => e > deadline + lag,
             };
+            let alive_at_expiry = c.exit.map(|e| e.0 > deadline || (e.0 == deadline && e.1 == 1009)).unwrap_or(true);
+            if !late && alive_at_expiry && !c.kills.iter().any(|k| k.0 == deadline) {
+                vs.push(Violation::new(
+                    "no-kill-at-grace-expiry",
+                    st.op.name(),
+                    format!("op {id} ({}) signalled child {ci} at t={s}, grace {grace} ms: still alive at t={deadline} but no kill was issued at that instant (kills: {:?})", st.op.name(), c.kills),
+                ));
+            }
+            if lag > 0 && alive_at_expiry {
+                stats.hit("probe:slow-death-at-grace-expiry");
+                if let (Some((e, _)), Some((rt, _, _))) = (c.exit, c.reaped) {
+                    if rt != e {
+                        vs.push(Violation::new("not-reaped-at-grace-expiry", st.op.name(), format!("child {ci} died at t={e} after the kill at t={deadline} but was reaped at t={rt}")));
+                    }
+                }
+            }
             if late {
                 vs.push(Violation::new(
                     "no-kill-at-grace-expiry",
@@ -750,9 +775,9 @@ impl Check for C06 {
     fn generate(&self, rng: &mut Rng, idx: u64, _tier: Tier) -> Option<E1Scn> {
         Some(match idx % 4 {
             0 => gen_settled(rng, true),
-            1 => gen_graceful_burst(rng, false),
-            2 => gen_graceful_burst(rng, true),
-            _ => e1::gen_random(rng, &GenCfg { stalls: false, faults: idx % 8 == 7, max_ops: 12, max_senders: 3, allow_drop: false, kill_lag: false }),
+            1 => gen_graceful_burst(rng, false, false),
+            2 => gen_graceful_burst(rng, true, true),
+            _ => e1::gen_random(rng, &GenCfg { stalls: false, faults: idx % 8 == 7, max_ops: 12, max_senders: 3, allow_drop: false, kill_lag: idx % 8 == 3 }),
         })
     }
     fn execute(&self, scn: &E1Scn, policy: Policy, sched_seed: u64) -> RunOut {
@@ -781,6 +806,7 @@ impl Check for C06 {
             "probe:child-exit-inside-grace",
             "probe:exit-at-expiry-tie",
             "probe:kill-at-expiry",
+            "probe:slow-death-at-grace-expiry",
             "probe:try-restart-on-idle",
             "probe:unmappable-signal-sent-as-sigterm",
         ]
@@ -956,7 +982,8 @@ pub fn oracle_c07(scn: &E1Scn, d: &Digest, out: &RunOut, stats: &mut Stats) -> V
                 if let [(s, _, ci, true)] = sigs[..] {
                     let c = &d.children[ci];
                     if c.faults == 0 && d.spawn_fails.is_empty() {
-                        let bound = c.exit.map(|e| e.0).unwrap_or(u64::MAX).min(s + grace);
+                        let lag = scn.children.get(ci.min(scn.children.len().saturating_sub(1))).map(|c| c.kill_lag).unwrap_or(0);
+                        let bound = c.exit.map(|e| e.0).unwrap_or(u64::MAX).min(s + grace + lag);
                         let extra = if matches!(st.op, Op::StopSig { .. }) { 0 } else { slack };
                         if latest > bound.saturating_add(extra) {
                             vs.push(Violation::new(
@@ -1000,8 +1027,8 @@ pub fn oracle_c07(scn: &E1Scn, d: &Digest, out: &RunOut, stats: &mut Stats) -> V
 
 pub fn gen_c07(rng: &mut Rng, idx: u64) -> E1Scn {
     match idx % 6 {
-        0 => gen_graceful_burst(rng, false),
-        1 => gen_graceful_burst(rng, true),
+        0 => gen_graceful_burst(rng, false, false),
+        1 => gen_graceful_burst(rng, true, true),
         2 => {
             // error handler installed first, then random single-sender sequence with faults
             let mut s = e1::gen_random(rng, &GenCfg { stalls: false, faults: true, max_ops: 10, max_senders: 1, allow_drop: false, kill_lag: false });
@@ -1016,7 +1043,7 @@ pub fn gen_c07(rng: &mut Rng, idx: u64) -> E1Scn {
         }
         3 => gen_settled(rng, false),
         4 => e1::gen_random(rng, &GenCfg { stalls: true, faults: false, max_ops: 14, max_senders: 3, allow_drop: true, kill_lag: false }),
-        _ => e1::gen_random(rng, &GenCfg { stalls: true, faults: true, max_ops: 14, max_senders: 3, allow_drop: true, kill_lag: false }),
+        _ => e1::gen_random(rng, &GenCfg { stalls: true, faults: true, max_ops: 14, max_senders: 3, allow_drop: true, kill_lag: true }),
     }
 }
 
@@ -1302,7 +1329,7 @@ impl Check for C10 {
         Some(match idx % 5 {
             0 => gen_hi_over_normal(rng),
             1 | 2 => gen_order(rng),
-            3 => gen_graceful_burst(rng, false),
+            3 => gen_graceful_burst(rng, false, false),
             _ => e1::gen_random(rng, &GenCfg { stalls: true, faults: false, max_ops: 16, max_senders: 3, allow_drop: false, kill_lag: false }),
         })
     }
